@@ -43,8 +43,14 @@ pub fn origin_name(labels: &[Vec<u8>]) -> Name {
 
 /// `Parser::new(text, None, Some(origin)).parse()` under the panic monitor.
 pub fn parse(text: &str, origin: &[Vec<u8>]) -> Outcome {
+    parse_at(text, None, origin)
+}
+
+/// `Parser::new(text, path, Some(origin)).parse()`: `path` is the zone file's own path, against
+/// whose directory relative `$INCLUDE` file names are resolved.
+pub fn parse_at(text: &str, path: Option<std::path::PathBuf>, origin: &[Vec<u8>]) -> Outcome {
     let origin = origin_name(origin);
-    let r = mon::catch(|| Parser::new(text, None, Some(origin)).parse());
+    let r = mon::catch(|| Parser::new(text, path, Some(origin)).parse());
     match r {
         Err(p) => Outcome::Panic(p),
         Ok(Err(e)) => Outcome::Err(e.to_string()),
